@@ -165,7 +165,9 @@ StepVerdict(s) ==
               IF o.o # "val" \/ ~Has(o, "x") THEN "no;num-round-failed"
               ELSE IF DecNorm(s.x).sg # 0 /\ Mag(s.x) + s.p > 15 THEN "inc:scaled value beyond 2^53"
               ELSE LET E == RoundDec(s.x, s.p) IN
-                   IF DecEq([o.x EXCEPT !.sg = IF DecNorm(o.x).sg = 0 THEN 0 ELSE @], E) THEN "ok"
+                   \* the rounded decimal lies beyond the largest double: what is returned then is not said (an infinity is never right)
+                   IF DecAbsLt(Dec(1, <<1, 7, 9, 7, 6, 9, 3, 1, 3, 4, 8, 6, 2, 3, 1, 5, 7>>, 292), E) THEN "inc:rounded value beyond the largest double"
+                   ELSE IF DecEq([o.x EXCEPT !.sg = IF DecNorm(o.x).sg = 0 THEN 0 ELSE @], E) THEN "ok"
                    ELSE IF SigDigits(E) > 15 /\ E.sg = o.x.sg /\ AbsWithin(o.x, E, Slack(E)) THEN "ok"
                    ELSE "no;num-round-wrong"
            [] s.fn = "string" ->
